@@ -100,6 +100,22 @@ REGISTRY = {
         'assumptions': ['records are 8-byte js_event structs of type 1, 2, 0x81, 0x82'],
         'trusted': ['modelled, not verified: i16 arithmetic (/ truncates toward zero, saturating_neg), clap, the stub daemon in the harness'],
     },
+    'C19': {
+        'rule': 'the real shortest_rotation, law_of_cosines, linear_motion, lerp, Linear::update, ActuatorState::update, Actor::world_location, Actor::to_bytes / try_from (debug build, overflow checks on); floats cross as bit patterns. '
+                'shortest_rotation: a stride through ALL 2^32 bit patterns (2^14 quick / 2^9 thorough) + every multiple of PI/8 in [-2PI, 6PI] +-4 ulps + special values +-2 ulps + a dense grid on [-2PI, 6PI] + random; '
+                'law_of_cosines: 60k/600k side triples (uniform, log-uniform over 2^-31..2^33, shipped boom/arm lengths; third side random, degenerate +-3 ulps, right-angled, NaN/inf/negative) + 10k/100k near-degenerate real triangles under both readings; '
+                'profiles: 6.3k/63k (gain, offset, inverse, lower bound) settings incl. the shipped 7000/15000 gains and 12000 offset, zero/huge/negative/NaN gains and offsets, x up to 24 errors each (grids scaled 1e-38..1e30, +-0, subnormals, inf, NaN) + the shipped profiles on a dense error grid; ActuatorState sequences with gaps; lerp; '
+                'world_location: 20k/200k chains of 0..8 segments with small-integer signed-permutation and other matrices (exact in f32: compared bit for bit) with duplicate, absent, empty and multi-byte names; 6k/60k float chains of 0..6 segments (Euler angles incl. gimbal lock +-3 ulps): the reported segment transforms are multiplied exactly (dyadic arithmetic) by the model and compared within 2^-17 * (1 + sum |t|); Actor byte round trip on the same chains; '
+                'bit-exact comparison with the extracted Flocq model for every libm-free function (0 mismatches required); WILD positions (acos result, nalgebra matrix entries) are judged by the extracted property predicates only; non-trivial = inputs inside the property\'s domain; distinct by case text',
+        'exhaustive': {'quick': False, 'thorough': False},
+        'level_text': 'Theorems about the binary32 arithmetic the code executes (Flocq BinarySingleNaN model, bit-exact with the implementation): C19_shortest_rotation (EVERY finite f32 d >= -2PI_f: finite result in (-PI_f, PI_f], an exact integer multiple of 2PI_f away from the once-rounded d + 2PI_f; uses exactness of fmod and Sterbenz), C19_linear_update / _monotone / _sign_and_range and C19_actuator_value / _monotone / _sequences (EVERY finite gain >= 0, 0 <= offset <= 32767, EVERY finite error incl. those whose product overflows to +-inf: no panic, saturation instead of wrap, sign opposition unless inverted, monotone; stop-once behaviour along sequences of ANY length), C19_director_profiles_in_domain (profiles regenerated from director.rs), C19_linear_motion / _range_sign / _monotone (no value exactly inside the deadband, +-32767, sign, monotone), C19_world_location_named / _unnamed / _exact (ANY transform type: the loop is the ordered product up to the first segment with the name; later segments irrelevant), C19_actor_roundtrip (word level); over the reals C19_law_of_cosines_domain (argument in [-1,1] iff the triangle exists) and _angle; C19_law_of_cosines_f32_refuted: in binary32 a strictly non-degenerate triangle yields NaN (known finding K03).',
+        'level_note': 'PARTIAL where libm / nalgebra float code is involved: acosf is outside the model (assumed: NaN exactly outside [-1,1]; its value is checked in cos-space against the exact rational cosine within 2^-20 (1 + (a^2+b^2+c^2)/2ab)); for law_of_cosines the float-level claim enforced on the implementation is the margin reading (NaN forbidden when |cos| <= 1 - 2^-21 (1 + S/D), required when >= 1 + the same margin) - the strict reading fails (K03). world_location on f32 matrices and the Euler-angle round trip are compared within stated tolerances (2^-17 relative to the chain; rotation entries 2^-18, 2^-11 within 0.8 degrees of gimbal lock), not proved. Monotonicity is w.r.t. the order with -0.0 < +0.0 (Linear::update(+0.0) = -offset, (-0.0) = +offset). Linear::update\'s float may reach -32769 before the saturating cast (proved bound). Gains/offsets outside the domain (negative, NaN, offset > 32767) are compared bit for bit with the model (panics included) but carry no claim. Trusted: kernel, Flocq, extraction, drv.ml (WILD matching), harness, rs2v.',
+        'technique': 'Rocq proof on Flocq binary32 (rounding monotonicity, exact fmod, Sterbenz, overflow-aware clamp semantics; Reals for the triangle; induction for sequences and chains) + bit-exact differential execution of the extracted float model + extracted property predicates (exact dyadic / rational arithmetic) on the real outputs',
+        'explanation': 'eighteen theorems in Properties/C19.v',
+        'assumptions': ['profile gain finite >= 0, offset finite in [0, 32767] (the shipped profiles are proved inside)', 'errors finite', 'angle difference finite and >= -2*PI_f'],
+        'trusted': ['modelled, not verified: x86-64 SSE binary32 arithmetic = IEEE-754 round-to-nearest-even (Flocq), Rust fmodf/round/min/clamp/signum/`as i16` semantics as transcribed in Model/F32.v, libm acosf/sin/cos/atan2, nalgebra matrix products and Euler conversions',
+                    'axioms: the four real-number / classical axioms of the standard library used by Reals and Flocq'],
+    },
     'C20': {
         'rule': 'real NetworkAuthority::{new,setup,on_tick,recv} on the emulated bus: both networks of contrib/etc/glonax.conf loaded by the real glonax::from_file into the server\'s real Config (#[path]) and started; 1.2k (quick) / 12k (thorough) generated configurations: all 256 own addresses, NAME field boundaries and random values, driver lists of 0..5 entries drawn from the 7 known and unknown (vendor, product) pairs with/without source-address override and timeout; '
                 'events: start-up claim, first cycle (delayed per-driver setup), requests for address claim / software id / time-date / foreign groups to own, other and global destinations (also with DLC < 3), another cycle; frames on the bus compared with the extracted model; C20 predicate (claim = J1939-81 bit layout, replies exactly when specified, setup requests from exactly the known entries in order with destination = unit and source = daemon/override) evaluated on the real frames; non-trivial = some frame was sent; distinct by case text',
